@@ -7,4 +7,5 @@ Set Extraction KeepSingleton.
 From Kardia Require Import Base.Anchor.
 Extraction "../ocaml/C15/model.ml" Anchor.anchor Crc32c.crc32c Model.frame Model.frames Model.encode
   Model.decode_full Model.decode Model.read_log Model.wal_step Model.wal_run Model.max_index
-  Model.group_stream Model.disk_files Model.search Model.repair.
+  Model.group_stream Model.disk_files Model.search Model.repair Model.repair_onstart Model.repair_head
+  Model.total_size Model.check_total_size_limit Model.file_overwrite.
